@@ -14,6 +14,7 @@ CHECK = dict(
         dict(name="inpkg", dir=D, src="C01/inpkg", runs=[
             dict(name="accept", run="^TestVerifC01Accept$", quick=10000, thorough=400000, shards_thorough=4),
             dict(name="framing", run="^TestVerifC01Framing$", quick=4000, thorough=200000, shards_thorough=6),
+            dict(name="shared-deadline", run="^TestVerifC01UDPSharedDeadline$", quick=300, thorough=3000),
             dict(name="fuzz", run="^FuzzVerifC01Accept$", quick=0, thorough=0, tier_only="thorough",
                  fuzz="^FuzzVerifC01Accept$", fuzztime="150s", timeout_thorough=600, env={"GOMAXPROCS": "4"}),
         ]),
